@@ -330,6 +330,15 @@ func genC01(r *rand.Rand, i int) *Case {
 	}
 	genTables(r, c, 1+r.Intn(3), 20)
 	genStatReq(r, c, 25)
+	if r.Intn(100) < 25 {
+		// StoreAbsolutePath; lockfile-style extractors whose packages share one Locations slice
+		c.StoreAbs = true
+		for i := range c.Extract {
+			if len(c.Extract[i].Pkgs) >= 2 && r.Intn(2) == 0 {
+				c.Extract[i].SharedLocs = true
+			}
+		}
+	}
 	return c
 }
 
@@ -338,6 +347,7 @@ func genC01OnDisk(r *rand.Rand, i int) *Case {
 	c := genC01(r, i)
 	c.Stream = "ondisk"
 	c.OnDisk = true
+	c.StoreAbs = false
 	c.StatReq = nil
 	for _, d := range allNodes(c.Roots[0]) {
 		if !d.n.isDir() {
@@ -359,6 +369,23 @@ func genC01OnDisk(r *rand.Rand, i int) *Case {
 		}
 	}
 	c.SkipList = sk
+	// Kubernetes-style entries whose name starts with dots, addressed by absolute DirsToSkip / PathsToExtract
+	nm := []string{"..data", "...", ".x", "..2024_x"}[r.Intn(4)]
+	if findNode(c.Roots[0], nm) == nil {
+		c.Roots[0].Children = append(c.Roots[0].Children, &Node{Name: nm, Kind: "dir", Children: []*Node{{Name: "z", Kind: "reg", Size: 1}}})
+		c.Req = append(c.Req, [2]string{c.Exts[0], nm + "/z"})
+		c.Extract = append(c.Extract, XEntry{Ext: c.Exts[0], Path: nm + "/z", Pkgs: []Pkg{{Name: "p", Version: "1", Locs: []string{nm + "/z"}}}})
+		switch r.Intn(3) {
+		case 0:
+			c.SkipList = append(c.SkipList, nm)
+		case 1:
+			if len(c.Paths) > 0 {
+				c.Paths = append(c.Paths, nm)
+			} else {
+				c.Paths = []string{nm}
+			}
+		}
+	}
 	return c
 }
 
@@ -435,6 +462,26 @@ func genC08Group(r *rand.Rand, group int, groupSize int) []*Case {
 			}
 			if r.Intn(2) == 0 {
 				base.Extract[i].Pkgs[j].Version = "1"
+			}
+		}
+	}
+	// symlinks whose target is a directory: the entry is a symlink, Stat() says directory
+	if base.Symlinks || r.Intn(3) == 0 {
+		for _, d := range allNodes(root) {
+			if d.n.Kind == "sym" && r.Intn(2) == 0 {
+				d.n.Kind = "symdir"
+			}
+		}
+		if r.Intn(2) == 0 {
+			base.Symlinks = true
+			for _, d := range allNodes(root) {
+				if d.n.isDir() && len(d.n.Children) >= 2 && r.Intn(2) == 0 {
+					k := r.Intn(len(d.n.Children))
+					if !d.n.Children[k].isDir() && d.n.Children[k].Name != ".gitignore" {
+						d.n.Children[k].Kind = "symdir"
+						d.n.Children[k].Bits = 0
+					}
+				}
 			}
 		}
 	}
